@@ -1112,7 +1112,8 @@ def find_in_ast(search, node):
             if hasattr(child_node, "_location") and child_node._location == search:
                 return child_node
 
-            elif isinstance(child_node, FunctionDef):
+            elif isinstance(child_node, FunctionDef) and child_node.name == query:
+                # Only the function being looked for may consume the next path element (its parameter)
                 if len(current_search):
                     query = current_search.pop(0)
                 _cursor = next(
